@@ -679,9 +679,10 @@ def load_unit(name, extra_flags=(), src=None, root=None, tag=""):
     from .roles import normalise
     renamed = normalise(d)
     if not os.environ.get("FRG_NO_INLINE"):
-        from .inline import inline_unit
+        from .inline import inline_unit, is_new_helper, anchor_index
         import copy as _copy
-        pristine = {f["did"]: _copy.deepcopy(f) for f in d["functions"] if f.get("uq") not in known_names()}
+        _aidx = anchor_index(d["functions"])
+        pristine = {f["did"]: _copy.deepcopy(f) for f in d["functions"] if is_new_helper(f, _aidx)}
         drop = inline_unit(d)
         if drop:
             d["functions"] = [f for f in d["functions"] if f["did"] not in drop]
